@@ -509,6 +509,8 @@ def tr_s_inner(c, ss, k_fall, k_break):
         v = as_bool(c, s[3]) if ty == 'bool' else as_N(c, s[3])
         c.types[s[1]] = ty
         return '(let %s := %s in %s)' % (ident(s[1]), v, tr_s(c, rest, k_fall, k_break))
+    if c.havoc and k in ('for', 'while', 'do'):
+        return havoc_loop(c, s, rest, k_fall, k_break)
     if k == 'if' and c.havoc:
         hm = havoc_method_in_cond(c, s[1])
         if hm is not None:
@@ -624,6 +626,10 @@ def tr_s(c, ss, k_fall, k_break):
                 c.stopped_at = repr(ss[0])[:100]
                 global LAST_STOP
                 LAST_STOP = '[' + why + '] ' + repr(ss[0])[:200]
+                ra = [a for a in getattr(c, 'rest_args', ()) if a in c.types]
+                if ra:
+                    c.extern('zz_rest', ('fn', [c.types[a] for a in ra], 'R'))
+                    return '(zz_rest %s)' % ' '.join(ident(a) for a in ra)
                 c.extern('zz_rest', 'R')
                 return 'zz_rest'
             raise
@@ -641,7 +647,69 @@ def assigned_vars(ss):
             out |= assigned_vars(s[1])
         elif s[0] == 'switch':
             out |= assigned_vars(s[2])
+        elif s[0] == 'for':
+            out |= assigned_vars(s[1]) | assigned_vars(s[4])
+        elif s[0] == 'while':
+            out |= assigned_vars(s[2])
+        elif s[0] == 'do':
+            out |= assigned_vars(s[1])
     return out
+
+
+def walk_ir(x, f):
+    """apply f to every tuple node of an IR tree"""
+    if isinstance(x, tuple):
+        f(x)
+        for y in x:
+            walk_ir(y, f)
+    elif isinstance(x, list):
+        for y in x:
+            walk_ir(y, f)
+
+
+def loop_writes(c, loop):
+    """(scalar locals a loop may change, out-pointers it writes through, may it return?)"""
+    changed, derefs, rets = set(), set(), [False]
+
+    def f(n):
+        k = n[0]
+        if k == 'ret':
+            rets[0] = True
+        elif k == 'bin' and len(n) == 4 and isinstance(n[1], str) and n[1].endswith('=') and n[1] not in ('==', '!=', '<=', '>='):
+            t = n[2]
+            if t[0] == 'var':
+                changed.add(t[1])
+            elif t[0] == 'un' and t[1] == '*' and t[2][0] == 'var':
+                derefs.add(t[2][1])
+        elif k == 'un' and len(n) == 3 and n[1] in ('++', '--', 'post++', 'post--', '&') and isinstance(n[2], tuple) and n[2][0] == 'var':
+            changed.add(n[2][1])
+        elif k == 'refarg' and len(n) >= 2:
+            changed.add(n[1] if isinstance(n[1], str) else (n[1][1] if isinstance(n[1], tuple) and n[1][0] == 'var' else '?'))
+    walk_ir(loop, f)
+    return changed, derefs, rets[0]
+
+
+def havoc_loop(c, s, rest, k_fall, k_break):
+    """a loop the fragment cannot follow: every scalar local it may change becomes a fresh universally quantified value
+    after it; if its body contains `return`, the function may also leave there with an unknown code"""
+    changed, derefs, may_ret = loop_writes(c, s)
+    c.fresh += 1
+    n = c.fresh
+    binds = []
+    for v in sorted(changed):
+        if v in c.types:
+            pn = 'hv%d_%s' % (n, ident(v))
+            c.extern(pn, c.types[v])
+            binds.append((ident(v), pn))
+    c.written_derefs |= derefs
+    inner = tr_s(c, rest, k_fall, k_break)
+    inner = ''.join('(let %s := %s in ' % b for b in binds) + inner + ')' * len(binds)
+    if may_ret:
+        ex, rv = 'hv%d_loop_returns' % n, 'hv%d_loop_rv' % n
+        c.extern(ex, 'bool')
+        c.extern(rv, 'R')
+        inner = '(if %s then %s else %s)' % (ex, rv, inner)
+    return inner
 
 
 def _reset_stop():
@@ -649,13 +717,14 @@ def _reset_stop():
     LAST_STOP = None
 
 
-def translate(name, params, ptypes, ret_type, body, consts, extern_types=None, drop_params=(), eff=False, prefix=False, havoc=False, skip_setters=False):
+def translate(name, params, ptypes, ret_type, body, consts, extern_types=None, drop_params=(), eff=False, prefix=False, havoc=False, skip_setters=False, rest_args=()):
     """-> Coq source of `Definition gen_<name> ...`.  params/ptypes from the C++ declaration."""
     _reset_stop()
     c = Ctx(name, consts, ret_type in BOOL_TYPES, extern_types)
     c.eff, c.prefix = eff, prefix
     c.havoc = havoc
     c.skip_setters = skip_setters
+    c.rest_args = tuple(rest_args)
     c.body_text = repr(body)
     plist = []
     for p, t in zip(params, ptypes):
@@ -677,5 +746,5 @@ def translate(name, params, ptypes, ret_type, body, consts, extern_types=None, d
     if c.eff:
         rt = '(%s * list (N * N))' % rt
         term = '(let acc : list (N * N) := nil in %s)' % term
-    sig = [x.replace(': R)', ': %s)' % rt) for x in sig]
+    sig = [x.replace(': R)', ': %s)' % rt).replace('-> R)', '-> %s)' % rt) for x in sig]
     return 'Definition gen_%s %s : %s :=\n  %s.\n' % (ident(name), ' '.join(sig), rt, term), [i for (i, _) in c.externs] + [p for (p, _) in plist]
